@@ -59,9 +59,9 @@ Proof.
     + intros _. exists (ctl_ent fd 0 (-1)). rewrite KE, EPK, AF. split; [apply in_app_iff; right; left; reflexivity|split; reflexivity].
   - intros k0. apply sync_at_same with (s := s); [rewrite (kk_fdt _ _ KS); reflexivity|unfold is_epoll; rewrite (kk_method _ _ KS); reflexivity|rewrite (kk_notify _ _ KS); tauto|rewrite (kk_pfds _ _ KS); reflexivity|apply B].
   - assert (FL : flt k' = flt (kern s)) by (destruct KC as (_&_&_&_&->); reflexivity).
-    destruct C. constructor; rewrite ?(kk_rr _ _ KS), ?(kk_rf _ _ KS), ?(kk_rwf _ _ KS), ?(kk_fdt _ _ KS), ?(kk_er _ _ KS),
+    destruct C. unfold raw_is_pipe in dy_kern. constructor; unfold raw_is_pipe; rewrite ?(kk_rr _ _ KS), ?(kk_rf _ _ KS), ?(kk_rwf _ _ KS), ?(kk_fdt _ _ KS), ?(kk_er _ _ KS),
       ?(kk_tfd _ _ KS), ?KE, ?FL, ?AF, ?AR, ?AW; try assumption.
-    + intros j J. specialize (dy_kern j J). destruct (efd_raw s =? 0); [eapply pipe_ok_kctl|eapply evfd_ok_kctl]; eassumption.
+    + intros j J. specialize (dy_kern j J). dyk; [eapply pipe_ok_kctl|eapply evfd_ok_kctl]; eassumption.
     + intros _. split; [assumption|]. split.
       * destruct OPN as (v & V1 & V2). exists v. rewrite (kctl_open _ _ _ KC). tauto.
       * destruct KIND as [(_ & ->)|P]; [left; reflexivity|right; eapply pipe_ok_kctl; eassumption].
@@ -272,9 +272,9 @@ Proof.
     + intros Q. rewrite AR in Q. discriminate.
   - intros k0. apply sync_at_same with (s := s); [rewrite (kk_fdt _ _ KS); reflexivity|unfold is_epoll; rewrite (kk_method _ _ KS); reflexivity|rewrite (kk_notify _ _ KS); tauto|rewrite (kk_pfds _ _ KS); reflexivity|apply B].
   - assert (FL : flt k' = flt (kern s)) by (destruct KC as (_&_&_&_&->); reflexivity).
-    destruct C. constructor; rewrite ?(kk_rr _ _ KS), ?(kk_rf _ _ KS), ?(kk_rwf _ _ KS), ?(kk_fdt _ _ KS), ?(kk_er _ _ KS),
+    destruct C. unfold raw_is_pipe in dy_kern. constructor; unfold raw_is_pipe; rewrite ?(kk_rr _ _ KS), ?(kk_rf _ _ KS), ?(kk_rwf _ _ KS), ?(kk_fdt _ _ KS), ?(kk_er _ _ KS),
       ?(kk_tfd _ _ KS), ?KE, ?FL, ?AF, ?AR, ?AW; try assumption.
-    + intros j J. specialize (dy_kern j J). destruct (efd_raw s =? 0); [eapply pipe_ok_kctl|eapply evfd_ok_kctl]; eassumption.
+    + intros j J. specialize (dy_kern j J). dyk; [eapply pipe_ok_kctl|eapply evfd_ok_kctl]; eassumption.
     + intros Q. discriminate.
     + intros _. reflexivity.
     + intros Q. discriminate.
@@ -329,8 +329,8 @@ Proof.
                                   (awr <> -1 -> rw_rfd s j <> awr /\ rw_wfd s j <> awr)).
   { intros j J. destruct (raw_facts dA s j I J) as (_ & _ & _ & _ & _ & _ & FA & KJ). cbv zeta in *.
     destruct (FA AR) as (A1 & A2 & A3). fold afd awr in A1, A2, A3.
-    destruct (Z.eqb_spec (efd_raw s) 0) as [Z0|NZ].
-    - destruct (A3 Z0) as [A4 A5]. repeat split; congruence.
+    destruct (raw_is_pipe s j) eqn:Z0.
+    - destruct (A3 eq_refl) as [A4 A5]. repeat split; congruence.
     - destruct KJ as (_ & -> & _). repeat split; congruence. }
   split; [assumption|]. split; [|split; [|split; [|exact RAW]]].
   - exists v. split; [assumption|]. intros PK. destruct V2 as [(K & _)|(K & N)].
@@ -448,7 +448,7 @@ Proof.
   intros d d' s s' CS TR HP TK CU AC [A B C D E G H]. constructor.
   - eapply FdInv_eq; [exact A|intros k; rewrite (fc_fdt _ _ CS); tauto|apply CS..].
   - intros k. unfold sync_at, is_epoll. fc_rw CS. apply B.
-  - destruct C. constructor; unfold is_epoll; fc_rw CS; assumption.
+  - destruct C. constructor; unfold is_epoll, raw_is_pipe in *; fc_rw CS; assumption.
   - rewrite HP. exact D.
   - apply (TaskInv_same s); assumption.
   - exact AC.
